@@ -226,7 +226,7 @@ var _ = bufio.NewReader
 
 // the sweep: no reachable panic anywhere in the package
 //@ forall-funcs .* [C01]
-//@   requires? okL(l)
+//@   requires? l != nil
 //@   safe
 //@   terminates
 
